@@ -8,13 +8,32 @@ import (
 	"flag"
 	"fmt"
 	"os"
+	"sort"
 )
 
 func main() {
 	repo := flag.String("repo", "/repo", "repository root")
 	out := flag.String("out", "", "output directory for generated Lean files")
 	dump := flag.Bool("dump-lua-names", false, "print the locals of every Lua script in declaration order (Go source of lua_names.go) and exit")
+	dumpShapes := flag.Bool("dump-lua-shapes", false, "print the shape table of the Lua scripts (Go source of lua_shapes.go) and exit")
 	flag.Parse()
+	if *dumpShapes {
+		if _, err := genLuaScripts(*repo); err != nil {
+			fmt.Fprintln(os.Stderr, err)
+			os.Exit(1)
+		}
+		var keys []string
+		for k := range luaShapes {
+			keys = append(keys, k)
+		}
+		sort.Strings(keys)
+		fmt.Println("package main\n\n// luaShapeNames: see genLuaScripts.  Regenerate with `gsextract -repo /repo -dump-lua-shapes > lua_shapes.go`\n// ONLY when the committed names are the ones the proofs mention.\nvar luaShapeNames = map[string]string{")
+		for _, k := range keys {
+			fmt.Printf("\t%q: %q,\n", k, luaShapes[k])
+		}
+		fmt.Println("}")
+		return
+	}
 	if *dump {
 		if _, err := genLuaScripts(*repo); err != nil {
 			fmt.Fprintln(os.Stderr, err)
